@@ -95,6 +95,8 @@ func c04Build(cs *c04Case, cfg fiber.Config, form string, rec *[]c04Hit) *fiber.
 			}
 		case "rebuild":
 			app.RebuildTree()
+		case "serve":
+			doReq(app.Handler(), "GET", "/started")
 		case "close":
 			f := stack[len(stack)-1]
 			stack = stack[:len(stack)-1]
@@ -150,6 +152,8 @@ func c04Render(cs *c04Case) (string, string) {
 			fmt.Fprintf(&b, "%s(%q){ ", op.Kind, join(op.Arg))
 		case "rebuild":
 			b.WriteString("RebuildTree(); ")
+		case "serve":
+			b.WriteString("<a request is served>; ")
 		case "close":
 			b.WriteString("}; ")
 		}
